@@ -11,7 +11,7 @@ import (
 // C12 — behaviour independent of storage configuration and indexing (DESIGN 4/C12).
 
 func init() {
-	drivers["C12"] = &driver{cases: tierN(150, 2000), run: runC12}
+	drivers["C12"] = &driver{cases: tierN(150, 4000), run: runC12}
 }
 
 // badArgQueries: arguments that cannot be evaluated; only the error class is
